@@ -182,6 +182,9 @@ def c18(p, tier, replay):
 def prebuild():
     """used by bin/setup: generate sources for the quick tier and build all harness binaries"""
     family_build("quick", list(MODELS))
+    abi_build("quick", None, None)
+    for pkg in ("intro", "schema", "stream", "plugin"):
+        vlib.cargo_build(pkg)
 
 # ------------------------------------------------------------------------------------------------
 # C12: schemas are faithful (impl -> spec trace validation with SchemaTrace.tla)
